@@ -85,7 +85,7 @@ CLAIMED = {
              'of the working directory in between: every relative directory means the one below the working directory at the time of the call.',
         ref='DESIGN.md 4 (C06)'),
     'C11': dict(
-        text='For every dependency graph on 3 (thorough: 4) types (all adjacency matrices incl. self-loops and cycles), symbolic '
+        text='For every dependency graph on 3 types (all adjacency matrices incl. self-loops and cycles), symbolic '
              'exportability and placements (nested, ../, shared file), exported with export_all / export_all_to into directories with '
              'dot segments and pre-existing unrelated files: the files created are exactly those of the exportable types reachable from '
              'the root through exportable types, each created once, nothing else written, contents canonical (imports relative to the '
